@@ -990,3 +990,25 @@ PROPS["C05"] = {
                  "specification-judged differential check of the real compiler on type-directed programs and their single-edit mutants + "
                  "independent re-typing of the real IR",
 }
+
+
+# ---- text deltas after the strengthening of C17 / C18 / C07 (typed members, component chains, import forms, non-ASCII
+# identifiers, component sets, boundary constants); kept as post-assignments because the blocks above are generated text
+PROPS["C17"]["rule"] += ' ; MEMBER TYPES (same name declared at several levels): 444 tables enumerating EVERY status vector {resolvable, unresolvable, absent}^n for property p0 / method m0 (1-3 overloads over signals, slots and methods; ONE type of ONE overload that does not resolve fails the name; `absent` is sometimes a protected/private method) / signal a / nested enum E with enumerator V0 (unscoped, scoped, absent) on 14 graph shapes (chains of 1-4 classes, diamond, two unrelated bases, a base that is also listed directly before resp. after the class deriving from it, an unresolved and a non-class super listed first, a 2-cycle, a self-loop, a 3-cycle, a cycle with an unresolved super on it, a private base; thorough: + chain of 5, diamond with a tail, 4 rounds) plus 400 (thorough 6000) random tables of 1-9 classes whose member types come from a pool of ~60 spellings (builtins, QStringList / QList<..> / QVector<..>, pointers, classes, nested enums that are or are NOT visible from the DECLARING class, scoped names `C0::E`, `C0::V0`, `E0::x`, unknown `X<..>` decorations, names that exist nowhere); every table as kind=model (exact owners and errors `(err tr|sc|ud "Name")`), kind=spec (coarse; answered `(skip not-determined)` when several declarations can decide and differ in resolvability) and kind=pred (the EXACT real answers judged by QV.Spec.GraphMembers: the owner must be a declaring class reached without passing another declaring class — the class itself whenever it declares the name — and its declaration must resolve; an error iff such a declaration does not resolve, or nothing is declared and a super class is unresolved; the overload list must be the owner\'s public methods of that name in declaration order; enumerators/nested enums likewise, never an error for nested types); WHOLE PIPELINE (kind=oracle): 1164 documents (`c17-doc` in-process generate mode, 77 of them also `c17-cli` through the real binary with the classes in a --foreign-types file) over class families on top of QWidget (chains of 1-3, diamond, unresolved super listed first) x status vector x {property binding, property read, method call, signal handler, type name in a binding} x instantiated class x look-up through the instance or `(x as Ancestor)`; resolvable declarations have a type (int / QString / bool) resp. an arity that is distinct per level and the document is written for the declaration that must decide, so that binding another level\'s declaration is a type error; expected: accepted (and the .ui value element / the call / the connect in the header checked), \'<property|method|signal> resolution failed\', or \'unknown property|signal\' / \'not found in type\''
+PROPS["C17"]["rule"] += ' ; ISOLATION: every table request, and every whole-pipeline request on a cyclic class family (a sixth family `cycle`: L1 <-> L2 above L0, 233 documents), is answered in a CHILD PROCESS (qv-harness answer c17, one request, 5 s): a look-up that does not terminate is answered (fail "child-timeout" …), one that exhausts the stack (plain recursion on a cyclic graph aborts the process) (fail "child-crashed" (status "signal 6") …) — a failing input instead of a harness that hangs or dies; after 12 such answers the remaining isolated cases of the run are not started ((fail "not-run" …)); c17-cli runs have a 20 s timeout'
+PROPS["C17"]["trusted_base"] = list(PROPS["C17"]["trusted_base"]) + ["QV.Spec.GraphMembers.typeResolves (the specification's reading of 'a type name resolves in the scope of a class', by certified reachability) is not proved equal to the model's resolveTypeExpr: tied by the kind=pred cases", "the driver's parseType (the decoration stripping of util::decorated_type: QStringList, QList<..>, QVector<..>, trailing '*', '::') is glue outside the theorems, tied by the stream (the type NAME is what both sides receive)", 'the expectation of the whole-pipeline cases is computed in Rust (harness/src/streams/c17/pipeline.rs: deciders = declaring classes reached without passing a declaring class) — the same rule as QV.Spec.GraphMembers.Decides, not the Lean function']
+PROPS["C17"]["assumptions"] = list(PROPS["C17"]["assumptions"]) + ['member type names are unscoped or `A::B` names, optionally `T*`, QList<T> / QVector<T> / QStringList, or another `X<..>`; QML components, namespaces and aliases as member types are outside the fragment', 'whole-pipeline cases: as long as finding F92 is not listed in KNOWN_FINDINGS.json the tool\'s present answer for a method call / signal handler / type name on a class with an unresolved super class (the unresolved class is reported) is accepted as `super-unresolved`; once "F92" is listed (known or fixed) the specification\'s rule is demanded']
+PROPS["C17"]["level_text"] += "  Members with types (QV.Model.ClassGraph.Typed, specification QV.Spec.GraphMembers): search_decided — for every table the search returns the answer, Ok or Err, of a class that declares the name and is reached from the queried class without passing another class that declares it (Decides = reachability in the graph cut at the declaring classes), the class's own declaration whenever it declares the name, and if nobody declares it 'not found' resp. the deferred error of an unresolved super class; property_decided / method_decided / variant_decided instantiate it; own_property_declaration_decides, own_method_declaration_decides: the answer is the class itself or the error of ITS declaration's types; unresolvable_own_property_is_error / unresolvable_own_method_is_error: no fall-through to an ancestor (one bad overload fails the name); unique_decider_decides: on a chain the nearest declaring class decides; typed_property_extends_untyped: with default types the typed look-up is Repaired.getProperty, so the earlier theorems speak about what the driver answers."
+PROPS["C17"]["level_note"] += ' [updated] quick 2100 + 363 + 400 tables (2869 model / 2869 spec / 765 pred cases) and 1188 whole-pipeline cases, thorough 34913 + 2748 + 6000 tables (99 780 cases), 0 disagreements; theorems 41 -> 54.'
+PROPS["C18"]["rule"] += ' ; CHAIN family (72 layouts quick / 432 thorough): component chains of length 1-4 (component -> component -> … -> end); within one directory / every link in another directory imported by string under the import spellings, the using document importing the first directory only (a component\'s super class is resolved through the component\'s OWN imports) / mixed; ending in a Qt widget class, QVBoxLayout|QHBoxLayout, QAction, QObject, an unresolvable name (no such type / a Qt class in a file that does not import the Qt module) or a CYCLE (self, 2- and 3-cycles, a chain leading into a cycle, within and across directories); a binding + children at every level; sources = using documents (every component as root and as child, bindings of properties inherited from the end class, from intermediate Qt ancestors, and one the end class lacks) and the component files themselves, all 24 orders for the mixed set; kind=oracle c18-judge (all families) / c18-judge-all (chain family + corpus/C18/chains.c18.req): a judge written on the generated layout and the real file system only (no type map, no Lean model) demands per source EXACTLY the diagnostics the files call for (good document => accepted, none; every fault => its message once), every object with its binding in the .ui, <customwidgets> = the instantiated components each once with extends = the root type written in the component\'s own file (the DIRECT super) and header by the file-name rule, non-instantiated ancestors absent; through the real binary: .ui written for exactly the good sources, exit 1 iff a judged source is faulty; the measured Qt table also holds QVBoxLayout / QHBoxLayout / QAction with their kind ((qt ("QAction" false (...) action) …), 3-element entries still parse)'
+PROPS["C18"]["level_text"] += '  Chains: chain_accepts_end_class_properties (a chain of any length reaching Qt class q: property found iff q has it, widget-/layout-/action-ness = q\'s), chain_instance_accepted, cyclic_chain_never_widget + cyclic_chain_instance_rejected (a chain that returns to a visited component terminates, is no widget/layout/action, every property unknown, instance diagnosed), customwidget_extends_direct_super, customwidgets_only_instantiated; the model\'s Qt summary carries isLayout/isAction, child class test = action or layout or widget." (theorems 28 -> 34)'
+PROPS["C18"]["assumptions"] = list(PROPS["C18"]["assumptions"]) + ['documents are flat (root + children, <= 1 constant binding per object): components are instantiated directly below the root; QMenu and layout classes other than QVBoxLayout/QHBoxLayout are not generated', 'the judge does not judge a document where reading the files is ambiguous (same name in two visible directories, component named like a Qt class, file without root object, unknown named module imported by a component, Qt class outside the measured table): counted under c18-judge (about 13 % of the generic sources), a failure in the chain family']
+PROPS["C18"]["trusted_base"] = list(PROPS["C18"]["trusted_base"]) + ['hand-written Rust judge (a second reading of the files), measured kinds by is_derived_from(QAction / QLayout / QWidget) in the order of UiObject::build']
+PROPS["C07"]["rule"] += '  (f) IDENTIFIERS WITH NON-ASCII LETTERS (`uid`, about 7 600 cases per quick run; harness/src/streams/c07/unicode_ids.rs): a pool of 30 names (first character of 2, 3 or 4 bytes, lower / Unicode-upper / title case, single-character names, a combining mark or ZWJ after or as first character, emoji, U+10FFFF, `_`/`$` prefix, ASCII-first, `é` spelling, ASCII controls; the accepted character set was measured on the grammar); OBJECT documents (about 4 100): 7 name sources (nested id, root id, id deep in layouts, two ids differing in the first character only, custom component type WITHOUT id so that the generated object name derives from the type name, component type plus id, the document\'s own type name) x 21 features that derive a C++ name, object name or file name (static; dynamic binding on a property, gadget member, gadget group, size policy, attached property; type error; callbacks with and without body, parameter, self reference; several at once; referenced from another object\'s binding, callback, buddy, pointer ternary, actions, menuAction(); item model; object map) x pool, the full grid in-process, every (name, feature), (source, feature), (source, name) pair of the 10 non-ASCII core names through the real CLI; SYNTAX documents: 108 grammar positions (locals, parameters, switch and if bodies, members, enum / type / cast names, attached, grouped and handler spellings, property / signal / function / enum / component declarations, unknown types, imports, pragmas) x 13 names; FOREIGN documents: C++ classes with non-ASCII class, property, signal, slot, method, enum and enumerator names (a second --foreign-types file for the CLI); FILE-NAME documents: 40 type names (pool + names with a blank, a dot, a leading dash or dot, 160 bytes, upper-case extension) x 4 features, and components that instantiate themselves or each other (12 CLI cases with the 20 s timeout); 300 random MULTI documents; 360 uid documents through mutate / densify / truncate and 40 with a comment at every token boundary; a new mutation uid-rename-id|any|one on 600 pool documents (examples, test snippets, generated, stress): an object id (all occurrences), any identifier, or one occurrence gets a non-ASCII letter of 2/3/4 bytes as first character, inner character or prefix. New request forms (c07 "text" "TypeName" [dir]), (c07-twin …), (c07-cli HOW "text" "File.qml" (file "Other.qml" "text")…). Oracle: the totality oracle in all three modes plus the real CLI (494 runs): exit 0 or 1, <stem>.ui and uisupport_<stem>.h written iff exit 0 (names compared ignoring letter case). TWIN ORACLE (part of the tie, 6 100 cases): the same document with the names replaced consistently by ASCII names of the same upper/lower class must behave alike in every mode (syntax verdict, built, error and warning counts, messages with the names mapped back; for on<Name> positions only acceptance). (g) INTEGER BOUNDARIES: 13 operators x 12x12 operands (i64::MIN … MAX, +-2^31, 2^32, 63/64) plus the unary operators, 1 920 documents + 27 CLI runs.'
+PROPS["C07"]["assumptions"] = list(PROPS["C07"]["assumptions"]) + ['the uid cases with names XML 1.0 cannot carry (U+FFFE / U+FFFF ids, control characters in file names) are generated only once finding F90 is listed in KNOWN_FINDINGS.json (known or fixed)']
+PROPS["C18"]["rule"] += ' ; IMPORT-FORMS family (60 layouts quick / 360 thorough): every link of a 1-3 component chain (each component in its own directory) and the source\'s own imports written in one of 15 styles — with a version (named `import qmluic.QtWidgets 6.2` / 5.15 / 6, string `import "../b" 1.0`), under an alias (alone: the route is cut; next to a plain statement), twice / under two spellings, the own directory explicitly, unused imports in between, the Qt module last or between directory imports; a directory imported under an alias only must NOT be discovered; judged by c18-judge-all + model + c18-once / reach / resolve / exact; import nodes may carry (version "…") / (alias "…") among their arguments (plain nodes unchanged); the diags of an answer hold errors and warnings, accepted = built and no error; the chain family gives a version to one statement in five; corpus/C18/import_forms.c18.req (8 witnesses, 144 requests)'
+PROPS["C18"]["level_text"] += '  Imports: versioned_import_is_the_import, versioned_import_only_warns (same form, widgets, customwidgets and verdict; only the warning differs), aliased_import_contributes_nothing, aliased_import_rejects_document; Output.accepted = built and no ERROR diagnostic (customwidgets_exact clause 3 reworded accordingly)." (theorems 34 -> 38)'
+PROPS["C18"]["assumptions"] = list(PROPS["C18"]["assumptions"]) + ["the position of the import-statement diagnostics among the others is not modelled (diagnostics are compared sorted); versions and alias names are opaque strings; errors of DISCOVERED components go to the project diagnostics, which the in-process answers do not carry (the judge checks that the CLI's exit status is unaffected)"]
+PROPS["C18"]["trusted_base"] = list(PROPS["C18"]["trusted_base"]) + ['qml_text writes `import M <version> as <alias>`']
+PROPS["C07"]["rule"] += '  (h) COMPONENT SETS (`set`, 292 cases): several QML files in one or two directories (string import "../lib"), 15 shapes: self-root, self-root-child, self-child, cycle2, cycle3, import-cycle, import-self, cross-dir-cycle, chain-into-cycle, diamond-cycle, diamond-ok (valid diamond + an UNUSED 2-cycle in the same directory), mutual-child, cycle-behind-child, chain-ok, dangling; each with the instance as root / as child of the main document x static / dynamic binding / callback, ASCII and non-ASCII component names; through the real CLI (242 runs, 20 s limit: every file alone and all on one command line, also --no-dynamic-binding): exit 0/1, 0 iff every .ui written, 1 only with a report; in-process through qmldir::populate_directories + uigen::build with ONE fresh type map per set in all three modes: 42 sets without a reachable inheritance cycle plus <= 8 cyclic sets per run (chosen by the seed, run LAST because a hang costs a worker). A document that instantiates a component whose chain of roots never reaches a Qt class must be refused in every mode and never written; the sets valid by construction must be accepted. New requests (c07-set (files …) (sources …)), (c07-cli-set generate|reject (files …) (sources …)). (i) BOUNDARY CONSTANTS (`bc`, 8 835 cases): 41 integer operands (i64 min…max, +-2^31, 2^31+-1, 2^32, 2^53, 2^53+1, literals that do not fit such as 2^63 / 2^64, hex / octal / legacy-octal / binary / `_` spellings, folded expressions such as `-9223372036854775807 - 1`, `1 << 62`) and 20 double operands (+-1e308, 1e309, -0.0, NaN / +-inf as folded divisions, +-2^63.0, denormal, `.5`, `5.`) under 14 binary integer operators, 3 shifts x 12 shift counts, logical, ternary, 7 unary forms, 21 cast forms (incl. the unsupported ones), double x double, mixed int/double, Math.max/min, .arg, subscripts, switch labels, let chains; bound to int / uint / double / bool / QString / enum / flags properties and in callbacks, CONSTANT (folded) and DYNAMIC (one operand a property read, so the folder is bypassed); totality in all three modes + 54 CLI runs.'
+PROPS["C07"]["level_note"] += ' quick 27 081 cases (was 8 401), 1 429 CLI runs, wall about 55 s.'
